@@ -60,7 +60,7 @@ def coq_sources():
 def ensure_makefile():
     srcs = coq_sources()
     stamp = os.path.join(COQ, ".srclist")
-    cur = "\n".join(srcs)
+    cur = "\n".join(srcs) + "\n"
     old = open(stamp).read() if os.path.exists(stamp) else None
     if old != cur or not os.path.exists(os.path.join(COQ, "Makefile")):
         rc, out = sh(["coq_makefile", "-f", "_CoqProject", "-o", "Makefile"] + srcs, cwd=COQ)
